@@ -178,7 +178,12 @@ func ctorMapping(fn *ssa.Function) map[string]string {
 			case *ssa.Parameter:
 				for i, p := range fn.Params {
 					if p == v {
-						out[f] = fmt.Sprintf("#%d", i)
+						// in frozen positions (a reordered signature keeps its mapping)
+						for fi := range fn.Params {
+							if permutedIndex(fn, fi) == i {
+								out[f] = fmt.Sprintf("#%d", fi)
+							}
+						}
 					}
 				}
 			case *ssa.Const:
